@@ -36,7 +36,11 @@ def driverLine (inp obs : List String) : Bool × Bool × String × String :=
     | none => (false, false, "bad-line", "")
     | some svc =>
       let r : Req := { svc := svc, tls := tls != "0", alpnH2 := tls == "2", tcpcheck := tc == "1", connect := m == "CONNECT",
-                       scheme := optS sc, host := optS h, port := if p == "-" then none else some (natTok p),
+                       -- the host as `Uri::host` sees it (`^` = empty, user information dropped); a port that is no
+                       -- port number (`e` = empty, out of range, not a number) is no port (`Uri::port_u16`)
+                       scheme := optS sc,
+                       host := (optS h).map fun h => ((h.replace "^" "").splitOn "@").getLast!,
+                       port := (if p.length ≤ 5 then p.toNat? else none).bind fun n => if n < 65536 then some n else none,
                        ver := parseVer v, nameValid := nv == "1",
                        badLength := ((m == "POST" || m == "PUT") && hs.contains "content-length=0") ||
                                     (let tes := hs.filter (·.startsWith "te="); tes.head? == some "te=trailers" && tes.any (· != "te=trailers")) }
